@@ -61,6 +61,8 @@ def categories(p, I, extra, dialect=None):
 
 def check(run):
     p = run.prog
+    from . import rexpy_eval
+    run.attempt(rexpy_eval.run_rule, run, p, 'C03')
     run.attempt(loop, run, p)
     I = interp(p)
     flags = p.const('tdda.rexpy.rexpy', 'RE_FLAGS')
